@@ -47,7 +47,11 @@ UNITS['c07'] = {
         ('occurs_skips_property', 'occurs(a, prop)', 'false', ['C07.occurs']),
         ('occurs_skips_bindings', 'if occurs(a, binding) {', 'if false {', ['C07.occurs']),
         ('compress_wrong_way', 'self.parents[v] = w;', 'self.parents[w] = v;', ['C07.uf']),
-        ('reduce_no_progress', 'v = parent;', 'v = v;', ['C07.uf']),
+        ('reduce_no_progress', 'v_ = parent;', 'v_ = v_;', ['C07.uf']),
+        ('union_direction_flipped', 'self.parents[vrep] = wrep;', 'self.parents[wrep] = vrep;', ['C07.uf.union', 'C07.uf.nopanic.union']),
+        ('union_links_element_not_root', 'self.parents[vrep] = wrep;', 'self.parents[v] = wrep;', ['C07.uf']),
+        ('reduce_stops_one_early', 'if parent == v_ { return v_; }', 'if parent == v_ || self.parents[parent] == parent { return v_; }', ['C07.uf.reduce']),
+        ('find_reports_no_reduction', 'Some((self.tags.get_index(vrep).unwrap(), vrep != v))', 'Some((self.tags.get_index(vrep).unwrap(), false))', ['C07.uf.find']),
     ],
 }
 
@@ -222,7 +226,7 @@ PROPS = {
         'units': ['c07'],
         'level': 'other',
         'obligation_prefixes': ['C07.'],
-        'technique': 'Verus contracts on the real occurs (completeness against sub-term containment, termination) and UnionFind (ranked-forest invariant, termination of both loops, no panic, find returns a root)',
+        'technique': 'Verus contracts on the real occurs (completeness against sub-term containment, termination) and UnionFind (ranked-forest invariant, termination of both loops, no panic, representative laws of reduce/reduce_mut/union/find)',
         'level_text': 'Deductive proof (Verus/Z3), for all tags and all union-find states, of the function-level clauses only: occurs(a,b) is exactly '
                       'sub-term containment through every constructor (so self-containing types cannot be bound), both path walks terminate, the forest '
                       'invariant is preserved by insert/reduce_mut/union, no indexing or assert can panic. unify/constrain/substitute are outside Verus '
@@ -232,7 +236,8 @@ PROPS = {
                       'order / renaming independence, coincidence with solvability.',
         'design_ref': 'DESIGN.md section 5, C07',
         'explanation': 'Decides: (1) occurs is complete w.r.t. containment through Func bindings, Func range and Property (postcondition taken from the property, not the code); '
-                       '(2) UnionFind: ranked-forest invariant preserved, reduce/reduce_mut terminate and return a root, insert/union/find cannot panic. '
+                       '(2) UnionFind: ranked-forest invariant preserved, reduce/reduce_mut terminate and return THE representative of the class, path compression keeps every class, '
+                       'union merges exactly the left class into the right one (right representative wins) and leaves all other classes alone, find returns the class representative and the reduced flag; no panic. '
                        'Does not decide unify/reduce(free fn)/constrain/substitute (Verus rejects closures capturing &mut UnionFind; Kani did not finish on depth-1 tags).',
         'assumptions': ['IndexSet behaves as documented (conformance not proved)', 'Tag equality is structural'],
         'not_decided': ['unify calls occurs before every binding', 'verdict independent of declaration order and identifier spelling', 'verdict coincides with solvability of the kind constraints', 'termination of union::reduce (free function) and substitute'],
